@@ -213,6 +213,9 @@ D = {
  'C08-enqueue-retry-keeps-position-or-r7': ('C08', 'enqueue finds the free position before its CAS loop, looks again only when the word got smaller, and ORs the index in instead of masking (round 7)', 'an enqueue on the same queue completing between another enqueue\'s load and its CAS (send nested in send, two senders): the two indices are OR-ed into one position, recv panics "Full slot with nothing in it" / index out of range'),
  'C06-dequeue-head-hoisted-r7': ('C06', 'dequeue reads the head and tests emptiness once, before its CAS retry loop (round 7, independent rediscovery of C08-dequeue-hoisted-head, written against C06)', 'a dequeue on the same queue between another dequeue\'s load and its CAS: one slot owned twice, a value overwritten and lost early, the other slot leaked'),
  'C09-wake-coalesced-rearm-before-sleep-r7': ('C09', 'the action writes its wake-up byte only when it flips a `notified` flag; poll_pending clears the flag just before has_signals (round 7; unlike C09-wake-coalescing-flag the re-arm sits before the sleep, and pending() never re-arms)', 'a lower-numbered watched signal delivered while the consumer still walks a batch that handed out a higher-numbered one (or raise; pending(); raise; wait()): slot set, no byte, the consumer blocks'),
+ 'C07-drop-drains-three-slots-r8': ('C07', 'cells become MaybeUninit<T> with a new Drop for Channel that drains the full queue in a loop over 0..BITS (3) instead of 0..SLOTS (5) (round 8)', 'a payload with a destructor and the channel dropped while 4 or 5 values are unreceived: 1 or 2 values leak'),
+ 'C11-close-wakes-before-flag-once-r8': ('C11', 'close() made "idempotent": only when not yet closed it wakes the readers first and stores the flag afterwards; later calls do nothing (round 8)', 'a consumer that consumes the wake-up byte between the wake and the flag store: it sees closed == false and blocks again for good; a second close() no longer rescues it'),
+ 'C13-descriptor-zero-never-closed-r8': ('C13', 'WakeFd::drop closes only when fd > 0 (round 8)', 'the handed-over descriptor has number 0 (a process without stdin): never closed, the reader never sees EOF'),
 }
 for name, (prop, change, needs) in D.items():
     d = os.path.join(ROOT, 'seeded', name)
